@@ -24,12 +24,14 @@ Definition to_double (v : pyval) : wres Z :=
   | _ => WErr
   end.
 
-(* `"null" not in field_type` is false, i.e. the field may be absent without default *)
-Definition nullok (s : schema) : bool :=
+(* _accepts_null(field_type): the field may be absent without default.  list -> any branch accepts null;
+   dict -> field_type.get("type") == "null"; otherwise field_type == "null" (a by-name reference never does).
+   (A dict whose "type" is itself a dict or list is not a schema fastavro can parse; [strip] is used for the dict form.) *)
+Fixpoint nullok (s : schema) : bool :=
   match s with
   | SNull => true
-  | SRef n => substr (s2b "null") n
-  | SUnion bs => existsb (fun b => match b with SNull => true | _ => false end) bs
+  | SAnnot _ s' => match strip s' with SNull => true | _ => false end
+  | SUnion bs => existsb nullok bs
   | _ => false
   end.
 
@@ -58,15 +60,34 @@ Fixpoint find_named (name : str) (bs : list schema) (i : Z) : option Z :=
 
 Definition is_double (s : schema) : bool := match strip s with SDouble => true | _ => false end.
 
+(* hint = datum["-type"] if isinstance(datum, dict) and "-type" in datum else None   (`hint is not None` is the test) *)
+Definition type_hint (v : pyval) : option pyval :=
+  match v with
+  | PDict kv => match dict_get kv (s2b "-type") with Some PNone => None | x => x end
+  | _ => None
+  end.
+
+(* with a hint only the record branch of that name is considered (a by-name reference is resolved first) *)
+Definition hint_pass (e : env) (v : pyval) (c : schema) : bool :=
+  match type_hint v with
+  | None => true
+  | Some h =>
+      match (match strip c with SRef n => match lookup e n with Some d => strip d | None => strip c end | d => d end) with
+      | SRecord n _ _ => match h with PStr t => bytes_eqb t n | _ => false end
+      | _ => false
+      end
+  end.
+
 Section Choose.
   Variable val : schema -> pyval -> res bool.          (* _validate(datum, candidate, field="") *)
   Variable e : env.
-  (* the search loop of write_union without a hint: best index so far, most_fields, could_be_float *)
+  (* the search loop of write_union without a tuple hint: best index so far, most_fields, could_be_float *)
   Fixpoint choose (v : pyval) (bs : list schema) (i best most : Z) (cbf : bool) : res Z :=
     match bs with
     | [] => Ok best
     | c :: bs =>
-        if cbf then (if is_double c then Ok i else choose v bs (i + 1) best most cbf)
+        if negb (hint_pass e v c) then choose v bs (i + 1) best most cbf        (* "-type" names another branch: continue *)
+        else if cbf then (if is_double c then Ok i else choose v bs (i + 1) best most cbf)
         else
           let* ok := val c v in
           if negb ok then choose v bs (i + 1) best most cbf
